@@ -311,3 +311,28 @@ PROPS["C18"] = {
     "record": [{"group": "randomsweep"}],
     "assumptions": COMMON_ASSUMPTIONS + ["harness built with overflow-checks = true (as debug builds are): an arithmetic overflow is a panic"],
 }
+
+TERM_ASSUME = COMMON_ASSUMPTIONS + [
+    "term mode: formulas are built by the specification as data and evaluated by harness/src/terms.rs with one IEEE single-precision operation "
+    "(or the platform's f32 libm function) per node; comparison tolerance 1e-5 * max(1, |expected|)",
+]
+
+PROPS["C03"] = {
+    "level": "model_checking",
+    "technique": "TLC model checking of the optimizer slot state machine (Optimizer.tla, MC_C03) over all interleavings + replay of every update "
+                 "history into create->validate->update with the specification's update programs as oracle",
+    "level_text": "For all five optimizers and every combination of decay / momentum / centred, with explicit and with zero (defaulted) "
+                  "hyper-parameters, TLC explores every interleaving of updates over three slots (matrix, vector, 3-D kernel) and round structures "
+                  "and checks that slot state depends only on the slot's own parameter and gradients and changes only through its own step; each "
+                  "history is replayed through the public API with six gradient classes (random, constant, sparse, sign-flipping, 1e-20, 1e10): "
+                  "values must match the documented per-element program, be bit-identical across tensor ranks for equal slot histories, and stay "
+                  "finite (including constant-gradient runs of 60 and 1300 steps per slot)",
+    "level_note": "histories of 3 (4) updates over 3 slots and up to 3 rounds in TLC; accuracy beyond 1e-5 relative is not examined; the centred "
+                  "variance is specified as max(v - g_avg^2, 0)",
+    "rule": "one case = one (kind, options, explicit/zero hyper-parameters, update history); replayed with 6 gradient classes; all distinct; non-trivial = all",
+    "mc": [{"module": "MC_C03",
+            "consts": {"quick": {"MaxSteps": 3, "MaxRounds": 3, "Slots": "{1, 2, 3}", "LongRuns": "{120, 2600}"},
+                       "thorough": {"MaxSteps": 4, "MaxRounds": 3, "Slots": "{1, 2, 3}", "LongRuns": "{120, 2600, 10000}"}},
+            "workers": 8, "timeout": {"quick": 600, "thorough": 7200}}],
+    "assumptions": TERM_ASSUME,
+}
